@@ -4,6 +4,7 @@
 #include "ops.hpp"
 
 #include <rapidcheck.h>
+#include <cstdlib>
 
 namespace vf {
 
@@ -89,10 +90,18 @@ inline void rc_check(char const* sub, rc::Gen<Case> gen, int cases, int max_size
     md.description = sub;
     std::string last_cs, last_detail;
     bool any_fail = false;
+    // Shrink budget: rapidcheck has no limit on shrink steps, and a change that makes most histories fail can keep it
+    // walking `v - 1` argument candidates for many minutes.  After the first failure at most `shrink_budget` further
+    // evaluations are judged; beyond that every candidate is reported as passing, which ends the shrink at the smallest
+    // failing case seen so far (still a real failing case - it is re-confirmed by replay before VIOLATION is printed).
+    std::uint64_t evals_after_fail = 0;
+    std::uint64_t shrink_budget    = 20000;
+    if (char const* e = std::getenv("VERIF_SHRINK_BUDGET")) { shrink_budget = std::strtoull(e, nullptr, 10); }
     auto saved    = ctx().memory_only;
     auto result   = rc::detail::checkTestable(
         [&]() {
             auto c = *gen;
+            if (any_fail && ++evals_after_fail > shrink_budget) { return; }
             Flight<Case> fl(sub, c);
             auto d = prop(c);
             if (!d.empty() && ctx().memory_only && d.find("lifetime:") == std::string::npos) {
